@@ -789,8 +789,11 @@ where
             for (sidx, sym) in prod.iter().enumerate().skip(sym_idx) {
                 match sym {
                     Symbol::Rule(s_ridx) => {
+                        // Come back to the rest of this production once the referenced rule
+                        // has been fully expanded.
                         st.push((pidx, sidx + 1));
                         st.push((cheapest_prod(*s_ridx), 0));
+                        break;
                     }
                     Symbol::Token(s_tidx) => {
                         s.push(*s_tidx);
